@@ -95,6 +95,8 @@ pub fn execute(scn: &Value) -> RunReport {
 
 fn execute_inner(scn: &Value) -> RunReport {
     let kind = scn.get("kind").and_then(Value::as_str).unwrap_or("");
+    #[cfg(feature = "mock")]
+    crate::world::auto_salts::ENABLED.store(kind != "mock", std::sync::atomic::Ordering::SeqCst);
     let bad = |e: String| RunReport { harness_error: Some(format!("invalid scenario: {}", e)), ..Default::default() };
     match kind {
         "msg" => match serde_json::from_value::<crate::msg::MsgScn>(scn.clone()) {
@@ -108,6 +110,61 @@ fn execute_inner(scn: &Value) -> RunReport {
         "decoys" => crate::salts::execute_c12(scn),
         "threads" => crate::salts::execute_c14(scn),
         "mock" => crate::salts::execute_c16(scn),
+        "multi" => execute_multi(scn),
         other => bad(format!("unknown kind {:?}", other)),
     }
+}
+
+
+/// Several generated runs executed one after the other in this process, the way the campaign
+/// executes them, with the campaign-level oracle on top: a salt or decoy digest of one run never
+/// occurs in another one.
+fn execute_multi(scn: &Value) -> RunReport {
+    let parts = scn.get("parts").and_then(Value::as_array).cloned().unwrap_or_default();
+    let mut out = RunReport::default();
+    let mut seen: std::collections::HashMap<String, usize> = std::collections::HashMap::new();
+    let mut hashes = String::new();
+    let mut clash: Option<(usize, usize)> = None;
+    for (i, p) in parts.iter().enumerate() {
+        if p.get("kind").and_then(Value::as_str) == Some("multi") {
+            continue;
+        }
+        let r = execute(p);
+        out.evaluations += r.evaluations;
+        for (k, v) in r.counters {
+            *out.counters.entry(k).or_insert(0) += v;
+        }
+        out.sim_seconds += r.sim_seconds;
+        hashes.push_str(&r.loghash);
+        if r.harness_error.is_some() {
+            out.harness_error = r.harness_error;
+            return out;
+        }
+        let t = r.tokens.as_bytes();
+        for c in t.chunks(32) {
+            let k = String::from_utf8_lossy(c).to_string();
+            match seen.get(&k) {
+                Some(j) if *j != i => {
+                    clash.get_or_insert((*j, i));
+                }
+                Some(_) => {}
+                None => {
+                    seen.insert(k, i);
+                }
+            }
+        }
+    }
+    out.loghash = format!("{:016x}", crate::rng::hash_str(&hashes));
+    out.count("oracle.campaign.unique_across_runs_checked");
+    if let Some((a, b)) = clash {
+        out.violations.push(crate::report::Violation {
+            property: scn.get("check").and_then(Value::as_str).unwrap_or("C14").to_string(),
+            clause: "unique-across-all-issuances".into(),
+            signature: "c14:salt_or_decoy_repeated_across_runs".into(),
+            trigger: std::collections::BTreeMap::new(),
+            detail: serde_json::json!({"parts": [a, b], "note": "a salt or a decoy digest issued in one run was issued again in another run (other instances, other entropy)"}),
+            scenario: scn.clone(),
+        });
+    }
+    out
 }
